@@ -3,16 +3,23 @@ C16 - offline-runnable providers honour the provider contract the engine relies 
 
 design:     ProviderModel.tla / MC_Provider_<style>_<case>.cfg  (TLC, exhaustive: tree well-formed, queries agree,
             id stability, every mutation reported, for both id styles and both case modes)
-spec->code: Gen_Provider enumerates every transition of the model's tree graph up to MaxLen calls (VIEW: each
-            distinct tree expanded once, reached by a shortest history) and -simulate produces long histories over
-            the full alphabet; each history is executed on a FRESH provider of every kind: the four MockProvider
-            flavours (+ filter_events for the id-style ones in thorough) and FileSystemProvider over a fresh
-            temporary directory (a reduced family, each run touches the disk).
-code->spec: after EVERY call the harness records the result (exception class / returned id / hash), a full
-            observation (info_path/exists_path for every path of the universe, info_oid/exists_oid/download/listdir
-            for every id, hash_data for every content) and the events drained since the previous call;
+spec->code: Gen_Provider prints every transition of the model's tree graph up to MaxLen calls (VIEW: each distinct
+            tree is expanded once, reached by a shortest call sequence, and EVERY call from it is printed), with the
+            hazard tags of every prefix; -simulate produces sequences of 10 calls over the full alphabet.  Each
+            sequence is executed on a FRESH provider of every kind: the four MockProvider flavours (+ filter_events
+            for the id-style ones in thorough) and FileSystemProvider over a fresh temporary directory.
+code->spec: after every call the harness records the result (exception class / returned id / hash) and the events
+            drained since the previous call; and a FULL OBSERVATION of the provider: info_path/exists_path for every
+            path of the universe, info_oid/exists_oid/download/listdir for every id, hash_data for every content.
+            Simulated sequences are observed after every call.  In the exhaustive family every call sequence is the
+            last call of its own trace, so each trace is observed in full after its LAST call only (every call of the
+            family is observed in some trace; observing the prefixes again would triple the cost for nothing).
             Trace_Provider (TLC) replays the calls on ProviderModel and evaluates every clause of the property on
             what the CODE answered.  Python only executes and records.
+verdict:    a (trace, line, clause) reported by TLC becomes a signature {clause, provider, op, tags of the prefix,
+            tags of the call, query kind / size class / expected and observed error class}; listed findings
+            (findings.d/C16.json -> known_findings.json) absorb exactly their signatures.
+Debugging aids (not used by the check itself): VERIF_DEBUG=1|file, VERIF_C16_KINDS=kind,..., VERIF_C16_PART=sims|exhaustive.
 """
 import io
 import json
@@ -556,18 +563,23 @@ def run(ctx):
     quick = ctx.tier == "quick"
     rng = random.Random(ctx.seed)
     ctx.extra["rule"] = (
-        "Gen_Provider (TLC) prints every transition of ProviderModel's tree graph up to MaxLen calls over names "
-        "a, A, b / depth 2 / two contents (each distinct tree expanded once, reached by a shortest call sequence), "
-        "plus -simulate call sequences of 10 calls over the full alphabet (a, A, b, e-acute, a.b, forbidden) and all "
-        "ten contents; every sequence is executed on a fresh provider of each kind and judged by Trace_Provider (TLC). "
-        "distinct = distinct (provider kind, call sequence); non-trivial = at least one call of the sequence succeeded "
-        "on the provider (returned without exception)")
+        "Gen_Provider (TLC) prints every transition of ProviderModel's tree graph (each distinct tree expanded once, "
+        "reached by a shortest call sequence; every create/mkdir/upload/rename/delete from it, failing ones included) "
+        "- quick: up to 3 calls over names a, A (case-sensitive flavours) / a, A, b (case-insensitive), thorough: up "
+        "to 3 calls over a, A, b and up to 4 calls over a, A; depth 2; one small and one > 2 KiB content - plus "
+        "-simulate sequences of 10 calls over the full alphabet (a, A, b, e-acute, a.b, forbidden name) and all ten "
+        "contents of the four size classes.  Every sequence is executed on a fresh provider of each kind and judged "
+        "by Trace_Provider (TLC).  distinct = distinct (provider kind, call sequence); non-trivial = at least one call "
+        "of the sequence returned without exception on the provider")
     ctx.assume(
         "real cloud providers (box, dropbox, gdrive, onedrive) cannot run offline and are out of scope",
         "FileSystemProvider runs on a real temporary directory of this Linux host: case-sensitive only; events come "
         "through the installed watchdog 6.0 / inotify, delivery is awaited with a sentinel file (inotify is ordered) "
         "and a 15 s time-out that is recorded as 'events not seen'",
         "the root folder is never the target of upload / rename / delete; paths have depth <= 2",
+        "ids are passed the way the engine passes them: in the spelling the provider issued (other spellings of a "
+        "path-style id on a case-insensitive provider are explored as stratum OID_CASE); the class of a failing "
+        "download and of a folder moved below itself are not documented: any exception is accepted there",
         "a path-style id equals the normalised path up to the provider's own normalisation (case folding)",
         "MockProvider's forbidden characters are switched on through its _forbidden_chars knob, as its tests do; "
         "the file system's forbidden name is one longer than NAME_MAX",
